@@ -11,17 +11,22 @@ pub mod c14;
 pub mod c16;
 pub mod c17;
 pub mod c19;
+pub mod ms;
 
 pub fn get(id: &str) -> Option<Box<dyn Monitor>> {
     match id {
         "C01" => Some(Box::new(c01::C01)),
         "C02" => Some(Box::new(c02::C02)),
+        "C03" => Some(Box::new(ms::Ms { prop: "C03" })),
         "C04" => Some(Box::new(c04::C04)),
+        "C05" => Some(Box::new(ms::Ms { prop: "C05" })),
+        "C06" => Some(Box::new(ms::Ms { prop: "C06" })),
         "C07" => Some(Box::new(c07::C07)),
         "C08" => Some(Box::new(c08::C08)),
         "C09" => Some(Box::new(c09::C09)),
         "C13" => Some(Box::new(c13::C13)),
         "C14" => Some(Box::new(c14::C14)),
+        "C15" => Some(Box::new(ms::Ms { prop: "C15" })),
         "C16" => Some(Box::new(c16::C16)),
         "C17" => Some(Box::new(c17::C17)),
         "C19" => Some(Box::new(c19::C19)),
